@@ -291,8 +291,12 @@ def compare_full(ds, world, lmax=None, expect_rows=None, raw_names=None, derived
     for k in derived_keys:
         if k not in have:
             out.append(("structure", "missing-derived", {"key": k}))
+    # keys that correspond to stored variables which were not asked for (projection loads) are errors;
+    # any other extra key (e.g. a further derived variable of a user configuration) is not the property's business
+    all_stored = expected_mesh_keys(world, None)
+    stored_names = set(all_stored) | {r for fam in all_stored.values() for r in fam}
     for k in have:
-        if k not in want_keys and k not in derived_keys:
+        if k not in want_keys and k not in derived_keys and k in stored_names:
             out.append(("structure", "unexpected-key", {"key": k}))
     if out:
         return out
